@@ -900,6 +900,9 @@ func drawDwPlans(w *smcWorld, n int) []dwPlan {
 			p.kind = "silent"
 		}
 		p.delay = []time.Duration{0, w.I / 2, w.I - 1, time.Microsecond}[t.Draw(4)]
+		if p.kind == "ack" && t.Chance(1, 6) {
+			p.j = 99 // (marks an acknowledgement that is sent three times)
+		}
 		out = append(out, p)
 		if p.kind == "silent" {
 			break
@@ -1118,6 +1121,12 @@ func c13ClientX(e *Env, forC14 bool, forced *c13Forced) {
 			case "ack":
 				if r == 0 {
 					w.schedule(p.delay, serverDWA(o.msg, 2001).Bytes(), "dwa:2001")
+					if p.j == 99 {
+						// a peer that repeats itself: the same answer twice more, right behind the first
+						w.schedule(p.delay+time.Microsecond, serverDWA(o.msg, 2001).Bytes(), "dwa:2001")
+						w.schedule(p.delay+2*time.Microsecond, serverDWA(o.msg, 2001).Bytes(), "dwa:2001")
+						e.Fault("dwa-repeated")
+					}
 				}
 			case "ack-retrans":
 				if r == p.j {
